@@ -20,7 +20,7 @@ from slimta.util.proxyproto import ProxyProtocol, ProxyProtocolV1, ProxyProtocol
 ID = 'C18'
 LEVEL = 'exploration'
 RULE = ('valid v1/v2 headers from a builder (boundary addresses/ports, TLV bytes) + 0..32 payload bytes, read '
-        'through generated short-read patterns by all three mix-ins; corruptions: every single-byte substitution '
+        'through generated short-read patterns by all three mix-ins; with a command timeout on the edge, the session after a well-formed / malformed / truncated header runs undisturbed; corruptions: every single-byte substitution '
         'and every truncation of sampled headers, length-field edits, random garbage. non-trivial = a short read '
         'splits the header, or payload follows, or the header is corrupted; distinct = distinct (bytes, read sizes, mix-in)')
 ASSUMPTIONS = ['inputs the spec rejects but int()/inet_pton leniency admits (+80, 0080, 8_0, unassigned v2 nibbles) are gray',
@@ -96,6 +96,10 @@ class _Base(EdgeServer):
     def handle(self, sock, addr):
         self.calls.append((addr, sock.pos))
         self.by_sock.setdefault(id(sock), []).append((addr, sock.pos))
+        if getattr(self, 'nap', 0):
+            # the session that follows the header outlives the time allowed for the header
+            gevent.sleep(self.nap)
+            self.finished = True
 
 
 class V1Edge(ProxyProtocolV1, _Base):
@@ -546,7 +550,43 @@ def run_resets(ctx):
                                case=lambda: {'reset': limit, 'data': hexb(hdr), 'sizes': sizes, 'mode': mode}, failures=f)
 
 
+def judge_session_after_header(data, sizes, mode):
+    """The edge has a command timeout (it bounds the header read). Whatever the header was - well-formed, malformed,
+    truncated - the wrapped session runs undisturbed afterwards: nothing armed for the header is left to fire inside it."""
+    edge = EDGES[mode]()
+    edge.command_timeout = 0.02
+    edge.nap = 0.08
+    edge.finished = False
+    sock = ShortSocket(data, sizes)
+    try:
+        edge.handle(sock, ('orig', 1))
+        gevent.sleep(0.03)        # ... nor after the session returned (the timer would hit whatever this greenlet does next)
+    except BaseException as e:
+        return [('C18:exception-escapes-handle:%s:%s:after-header' % (mode, type(e).__name__),
+                 '%r sizes=%r command_timeout=0.02, session of 0.08 s: %r' % (data[:80], sizes[:8], e))]
+    if edge.calls and not edge.finished:
+        return [('C18:session-cut-short:' + mode, '%r' % data[:80])]
+    return []
+
+
+def run_sessions(ctx):
+    index = 0
+    for ver, hdr in SAMPLE_HEADERS:
+        variants = [hdr + b'payload', hdr[:len(hdr) // 2], b'GET / HTTP/1.0\r\n\r\n' + b'x' * 120,
+                    hdr[:7] + b'\xff' + hdr[8:] + b'payload', b'']
+        for mode in (ver, 'auto'):
+            for data in variants:
+                for sizes in ([1 << 20], [3]):
+                    index += 1
+                    if not ctx.mine(index):
+                        continue
+                    f = judge_session_after_header(data, sizes, mode)
+                    ctx.record(('session', data, mode, tuple(sizes)), True, labels=['session-after-header', ref(data, mode)[0]],
+                               case=lambda: {'session': True, 'data': hexb(data), 'sizes': sizes, 'mode': mode}, failures=f)
+
+
 def run_shard(ctx):
+    run_sessions(ctx)
     if ctx.thorough:
         from vf import fuzz
         fuzz.run(ctx, ID, 90, FUZZ_SEEDS)
@@ -562,6 +602,8 @@ def replay(case):
     mode = case.get('mode')
     if mode not in EDGES:
         return []
+    if case.get('session'):
+        return judge_session_after_header(unhex(case['data']), sizes, mode)
     if 'reset' in case:
         return judge_reset(unhex(case['data']), sizes, mode, max(0, int(case['reset'])))
     if 'concurrent' in case:
